@@ -40,6 +40,8 @@ func main() {
 		out = transSites(os.Args[2:])
 	case "cli":
 		out = transCli(os.Args[2:])
+	case "actions":
+		out = transActions(os.Args[2:])
 	default:
 		fail("unknown mode %q", os.Args[1])
 	}
